@@ -677,8 +677,6 @@ package testscript
 //@   modifies fsExists
 //@ extern path/filepath.EvalSymlinks(path) (r, err)
 //@   pure
-//@ extern strings.CutSuffix(s, suffix) (before, found)
-//@   pure
 //@ extern strconv.Itoa(i) (r)
 //@   pure
 //@ func RunT
